@@ -101,7 +101,7 @@ def _parse_formal_default(
     gap = gap_between(node, prev_default, default_value_node)
     gap_newlines = gap.count("\n")
     if gap_newlines > 1:
-        default_before.extend([empty_line] * (gap_newlines - 1))
+        default_before.extend([empty_line] * min(gap_newlines - 1, 1))
     default_value = tree_sitter_node_to_expression(default_value_node)
     if default_before:
         default_value.before = default_before + default_value.before
@@ -264,7 +264,7 @@ def _parse_argument_set(
             gap = gap_between(node, previous_child, closing_brace)
             gap_newlines = gap.count("\n")
             if gap_newlines > 1:
-                argument_set_trailing_empty_lines = gap_newlines - 1
+                argument_set_trailing_empty_lines = min(gap_newlines - 1, 1)
         if before:
             # Preserve dangling trivia even when formals are empty.
             if argument_set:
@@ -410,7 +410,7 @@ def _collect_colon_trivia(
     if leading_newlines:
         breaks_after_semicolon = 1
         if leading_newlines > 1:
-            before_body_trivia.extend([empty_line] * (leading_newlines - 1))
+            before_body_trivia.extend([empty_line] * min(leading_newlines - 1, 1))
 
     for index, comment_node in enumerate(between_comment_nodes):
         before_body_trivia.append(Comment.from_cst(comment_node))
@@ -422,7 +422,7 @@ def _collect_colon_trivia(
         gap = gap_between(node, comment_node, next_node)
         gap_newlines = gap.count("\n")
         if gap_newlines > 1:
-            before_body_trivia.extend([empty_line] * (gap_newlines - 1))
+            before_body_trivia.extend([empty_line] * min(gap_newlines - 1, 1))
 
     return (
         before_colon_comments,
